@@ -242,9 +242,12 @@ fn judge(e: &mut Emitter, o: &Outer, inst: &Instance, what: &str, p: &SProof) {
     let (circ, stage) = circuit_verdict(o, p, db);
     if coarse(&native) != circ {
         let msg = format!("in-circuit STARK verifier says {circ} ({stage}), native verifier says {native}: variant `{what}` of {} presented to the {}", inst.what, o.desc);
-        // a SURPLUS final-polynomial coefficient is not part of F-C11-1: `set_fri_proof_target` refuses a
-        // final polynomial longer than its targets (and in variable mode the tail bound rejects it)
-        let surplus_final = what.starts_with("shape duplicate-last") && what.contains("final_poly.coeffs");
+        // FIXED mode: a SURPLUS final-polynomial coefficient is not part of F-C11-1 — `set_fri_proof_target`
+        // refuses a final polynomial longer than its targets. (Variable mode: a shorter proof's final
+        // polynomial extended by a ZERO coefficient — the duplicate of a zero leading coefficient — is
+        // the same padded polynomial and is accepted: that is F-C11-1; a non-zero one is rejected by the
+        // tail bound.)
+        let surplus_final = o.min.is_none() && what.starts_with("shape duplicate-last") && what.contains("final_poly.coeffs");
         if what.starts_with("shape") && circ == "ACCEPT" && !surplus_final {
             // F-C11-1: the assignment routines do not validate the proof's shape — (a) surplus
             // elements are dropped, (b) the opening lists are flattened before they are assigned,
